@@ -4530,7 +4530,7 @@ class ParameterizedMetaclass(type):
 
             if isinstance(value,Parameter):
                 mcs._clear_params_cache()
-                mcs.__param_inheritance(attribute_name,value)
+                mcs._initialize_parameter(attribute_name,value)
 
     def _clear_params_cache(mcs):
         """Drop the cached `.param` lookup of this class and of all its subclasses."""
